@@ -29,7 +29,9 @@ def run(pid, tier):
         o.add_tlc(rr, 'TraceCompose batch %d' % (bi // 120000))
         o.traces += len(lines[bi:bi + 120000])
         for (ln, ev) in parse_bad(rr.out):
-            o.finding(kind='compose', op=ev.get('op'), fam=ev.get('fam'), ft=ev.get('ft'), res=str(ev.get('res'))[:60], matched=ev.get('matched'),
+            oc = ev.get('outcls') or []
+            sym = 'nonfinite-output' if any(c in ('pinf', 'ninf', 'nan') for c in oc) else None
+            o.finding(kind='compose', symptom=sym, op=ev.get('op'), fam=ev.get('fam'), ft=ev.get('ft'), res=str(ev.get('res'))[:60], matched=ev.get('matched'),
                       show=ev.get('show'), params=ev.get('params') or ev.get('alpha'), stream=ev.get('stream'), event={k: v for k, v in ev.items() if k not in ('out', 'sb', 'gn')},
                       signature='compose:%s:%s:%s:%s' % (ev.get('op'), ev.get('fam'), ev.get('ft'), ev.get('matched')))
     matched = {}
